@@ -28,13 +28,13 @@ def plan(tier, seed):
     orc = ["C07"]
     sh = []
     if tier == "quick":
-        for i in range(6):
-            sh.append({"kind": "fault-matrix", "part": i, "parts": 6, "stride": 20, "oracles": orc, "depth": 2})
+        for i in range(10):
+            sh.append({"kind": "fault-matrix", "part": i, "parts": 10, "stride": 5, "oracles": orc, "depth": 2})
         sh.append({"kind": "holes", "n": 60, "oracles": orc})
         sh.append({"kind": "failpoints", "n": 14, "max_k": 12, "oracles": orc})
         for s in range(3):
             sh.append({"kind": "random", "shard": s, "n": 40, "oracles": orc, "faults": 0.2})
-        sh.append({"kind": "exhaustive", "n": 2, "depth": 3, "oracles": orc})
+        sh.append({"kind": "exhaustive", "n": 2, "depth": 2, "oracles": orc})
     else:
         for i in range(16):
             sh.append({"kind": "fault-matrix", "part": i, "parts": 16, "stride": 1, "oracles": orc, "depth": 2})
